@@ -110,7 +110,13 @@ def run(ctx):
         for rc in R:
             if not ctx.time_left():
                 break
-            xs = [mat(x) for x in rc.gen(rng)]
+            raw = [mat(x) for x in rc.gen(rng)]
+            xs = []
+            for x in raw:          # canonical representation: labels sorted along every labelled, non-positional dimension
+                for d in x.dims:
+                    if d in x.coords and d not in rc.fixed:
+                        x = x.sortby(d)
+                xs.append(mat(x))
             kw = {}
             if rc.dims_kw and rng.random() < 0.7:
                 cand = [d for d in xs[0].dims if d not in rc.fixed and d != "m" and d not in ("sev",)]
@@ -150,6 +156,7 @@ def run(ctx):
                     ctx.violation(f"{rc.name}: the call modified its inputs under '{rep}'", dict(desc, representation=rep), "unchanged", "changed")
 
             # transposition (each input independently) and coordinate order (independently per input)
+            check("as-generated", raw)
             check("transpose", [rep_transpose(rng, x, rc.fixed) for x in xs])
             check("shuffle-coords", [rep_shuffle(rng, x, rc.fixed) for x in xs])
             check("transpose+shuffle", [rep_shuffle(rng, rep_transpose(rng, x, rc.fixed), rc.fixed) for x in xs])
@@ -175,6 +182,7 @@ def run(ctx):
             if it == 0 and len(ctx.samples) < 4:
                 ctx.sample(desc)
     pandas_api(ctx)
+    manager_state(ctx)
     model_tie(ctx)
     bottleneck_probe(ctx)
     ctx.count("programs", programs)
@@ -201,6 +209,37 @@ def pandas_api(ctx):
             ctx.count("rep:pandas")
             if a[0] != b[0] or (a[0] == "ok" and not np.allclose(float(a[1]), float(b[1]), rtol=1e-9, atol=1e-12, equal_nan=True)):
                 ctx.violation(f"scores.pandas.continuous.{nm} differs from the xarray function on the same values", {"fcst": f, "obs": o}, str(b[1]), str(a[1]))
+
+
+def manager_state(ctx):
+    """multi-step use of a contingency manager: transform() must not change the manager itself - neither the values of
+    its own metrics nor (for dask inputs) their laziness; BasicContingencyManager computes the dict it is given, so a
+    transform that hands over the manager's own counts would compute them in place"""
+    import scores
+    rng = ctx.rng
+    for _ in range(ctx.n(4, 30)):
+        sizes = {"a": rng.randint(2, 3), "b": rng.randint(2, 3)}
+        f = gens.rand_da(rng, sizes, lo=0, hi=4, den=1, nan_p=0.1)
+        o = gens.rand_da(rng, sizes, lo=0, hi=4, den=1, nan_p=0.1)
+        for use_dask in (False, True):
+            ff, oo = (f.chunk({"a": 1}), o.chunk({"b": 1})) if use_dask else (f, o)
+            m = scores.categorical.ThresholdEventOperator().make_contingency_manager(ff, oo, event_threshold=2)
+            names = ("accuracy", "probability_of_detection", "false_alarm_rate")
+            before = {k: getattr(m, k)() for k in names}
+            lazy_before = {k: is_lazy(v) for k, v in before.items()}
+            for kwt in ({}, {"preserve_dims": ["a"]}, {"reduce_dims": "all"}):
+                core.call_impl(m.transform, **kwt)
+            after = {k: getattr(m, k)() for k in names}
+            desc = {"fn": "BinaryContingencyManager multi-step", "fcst": gens.da_repr(f), "obs": gens.da_repr(o), "dask": use_dask}
+            ctx.case(("manager-state", desc))
+            ctx.count("rep:manager-multistep")
+            for k in names:
+                ok, why = scorelib.same_value(compute(before[k], "synchronous"), compute(after[k], "synchronous"))
+                if not ok:
+                    ctx.violation(f"manager.{k}() changes value after transform() calls on the same manager: {why}", desc, "unchanged", why)
+                if is_lazy(after[k]) != lazy_before[k]:
+                    ctx.violation(f"manager.{k}() was {'lazy' if lazy_before[k] else 'eager'} before and is {'lazy' if is_lazy(after[k]) else 'eager'} after transform() calls on the same manager",
+                                  desc, "same laziness", "changed")
 
 
 def model_tie(ctx):
